@@ -54,6 +54,11 @@ def budget (nbEvalMax atExit : Nat) (lastStepBegan : Option Nat) : Bool :=
   | none => decide (atExit ≤ 1)
   | some before => decide (before < nbEvalMax)
 
+/-- "… within its evaluation budget", about the *calls of the objective* (not the optimiser's own
+counter): when the last step of `optimize` begins, the objective has been called (since `optimize`
+began) at most `nbEvalMax` times -/
+def budgetCalls (nbEvalMax callsBeforeLastStep : Nat) : Bool := decide (callsBeforeLastStep ≤ nbEvalMax)
+
 /-- the loop was left for a reason: tolerance reached or counter at the cap -/
 def exitReason (nbEvalMax atExit : Nat) (tol : Bool) : Bool := tol || decide (atExit ≥ nbEvalMax)
 
